@@ -659,6 +659,11 @@ static int finalize_tls_conf(struct xcm_socket *s)
 	item_deinit(&bts->crl);
     }
 
+    if (!bts->tls_auth && bts->verify_peer_name) {
+	LOG_TLS_INCONSISTENT_AUTH_CONFIG(s);
+	goto err_inval;
+    }
+
     if (!bts->verify_peer_name && bts->valid_peer_names != NULL) {
 	if (bts->valid_peer_names_set) {
 	    LOG_TLS_VALID_PEER_NAMES_SET_BUT_VERIFICATION_DISABLED(s);
